@@ -260,7 +260,7 @@ SHAPES = {
     "v4ish-run": lambda n: "http://" + "1." * n + "x:y",
     "noscheme-host-bad": lambda n: "a" * n + "]",
 }
-TIME_GUARD_S = 30.0
+TIME_GUARD_S = 10.0
 
 
 class _TimeGuard(Exception):
@@ -460,3 +460,7 @@ def presets():
 
 def min_nontrivial(tier: str) -> int:
     return 100000
+
+
+def shrinkable(case):
+    return case.get("kind") != "timing"
